@@ -1,7 +1,8 @@
 import Audit.Tool
 import FluteModel.Props.C02
 -- receiver-side ties of the Session model (namespace Flute.Props.C02.Link): object level to ObjRecv (agent orecv:
--- receiver_simulation, session_complete_is_exact; two step families still named hypotheses) and session level to Recv
+-- receiver_simulation, session_complete_is_exact; under Setting.OK + GenEv/FileOK + the codec contract CodecDec, no step
+-- hypothesis left; the two halves are not composed) and session level to Recv
 -- (agent e2e: receiver_session_agrees for every packet stream)
 import FluteModel.Props.C02Link
 import FluteModel.Props.C02LinkRecv
